@@ -22,7 +22,10 @@ type ArMember struct {
 	BlankG    bool   `json:"blankGid,omitempty"`
 	BlankMode bool   `json:"blankMode,omitempty"`
 	BlankSize bool   `json:"blankSize,omitempty"` // only honoured for an empty member: a blank column reads as 0
-	Data      []byte `json:"data"`
+	// PadKind: what fills the odd byte behind data of odd length (0 = the usual '\n'); ar(5) asks
+	// for a newline, other writers (the Go toolchain, BSD ar on some files) leave a NUL
+	PadKind int    `json:"padKind,omitempty"` // 0 '\n', 1 NUL, 2 blank, 3 'x', 4 '`', 5 0xff
+	Data    []byte `json:"data"`
 }
 
 const arMagic = "!<arch>\n"
@@ -64,7 +67,7 @@ func renderAr(ms []ArMember) []byte {
 		b.Write(arHeader(m))
 		b.Write(m.Data)
 		if len(m.Data)%2 == 1 {
-			b.WriteByte('\n')
+			b.WriteByte([]byte{'\n', 0, ' ', 'x', '`', 0xff}[m.PadKind%6])
 		}
 	}
 	return b.Bytes()
@@ -164,5 +167,8 @@ func genArMember(t *rapid.T, label string) ArMember {
 	m.BlankMode = rapid.IntRange(0, 5).Draw(t, label+"bmode") == 0
 	m.Data = genArData(t, label+"data")
 	m.BlankSize = len(m.Data) == 0 && rapid.Bool().Draw(t, label+"bsize")
+	if len(m.Data)%2 == 1 && rapid.IntRange(0, 5).Draw(t, label+"pad") == 0 {
+		m.PadKind = rapid.IntRange(1, 5).Draw(t, label+"padk")
+	}
 	return m
 }
